@@ -16,7 +16,7 @@ int qp_item_id(int thread, int opidx) { return thread * 16 + opidx + 1; }
 
 static int is_custom(char k) { return k == 'S' || k == 'C' || k == 'N' || k == 'W' || k == 'I'; }
 static int is_serial_kind(char k) { return k == 'S' || k == 'I' || k == 'W' || k == 'M'; }
-static int op_is_sync(char o) { return o == 's' || o == 'B' || o == 'w' || o == 'A' || o == '3'; }
+static int op_is_sync(char o) { return o == 's' || o == 'h' || o == 'B' || o == 'w' || o == 'A' || o == '3'; }
 static int op_is_barrier(char o) { return o == 'b' || o == 'B' || o == 'k'; }
 static int op_is_item(char o) { return o != 'U' && o != 'R' && o != 'z'; }   /* 'r' is an item */
 static int op_iters(char o) { return o == 'A' ? 2 : o == '3' ? 3 : 0; }
@@ -75,11 +75,14 @@ static int others_submitted(void *tp)
 static void body(int id)
 {
 	int t = (id % 1000 - 1) / 16, k = (id % 1000 - 1) % 16;
-	if (g_p->hold && id < 1000 && t == 0 && k < g_p->nops[t] && op_is_sync(g_p->ops[t][k].op) && g_p->ops[t][k].op != 'A' && g_p->ops[t][k].op != '3') {
+	if (id < 1000 && k < g_p->nops[t] && (g_p->ops[t][k].op == 'h' ||
+	    (g_p->hold && t == 0 && op_is_sync(g_p->ops[t][k].op) && g_p->ops[t][k].op != 'A' && g_p->ops[t][k].op != '3'))) {
 		// the synchronously executed item stays in flight until every other client thread has returned from all of its
 		// submissions: the overlap "reader inside, barrier arriving" costs no preemption
 		vx_ev(EV_START, id, 0);
-		vx_wait_until(others_submitted, (void *)(intptr_t)t);
+		// 'h': released at quiescence instead (another thread's sync item may be queued behind a barrier that waits for this one)
+		if (g_p->ops[t][k].op == 'h') { if (!others_submitted((void *)(intptr_t)t)) vx_wait_idle(); }
+		else vx_wait_until(others_submitted, (void *)(intptr_t)t);
 		vx_point();
 		vx_ev(EV_END, id, 0);
 		g_ended[id] = 1; g_items_ended++;
@@ -143,7 +146,7 @@ static void do_ops(int t)
 		case 'y': dispatch_async_f(q, ctx, yitem_fn); break;
 		case 'b': dispatch_barrier_async_f(q, ctx, item_fn); break;
 		case 'g': dispatch_group_async_f(g_group, q, ctx, item_fn); break;
-		case 's': dispatch_sync_f(q, ctx, item_fn); break;
+		case 's': case 'h': dispatch_sync_f(q, ctx, item_fn); break;
 		case 'B': dispatch_barrier_sync_f(q, ctx, item_fn); break;
 		case 'w': dispatch_async_and_wait_f(q, ctx, item_fn); break;
 		case 'A': dispatch_apply_f(2, q, ctx, apply_fn); break;
